@@ -120,3 +120,6 @@ fn category_integer() {
     assert!(Category::Integer.validate(s) == want_int);
     assert!(Category::DoubleInteger.validate(s) == want_int);
 }
+
+// (a bounded harness for the Cabinet grammar -- rsplitn + collect + reverse -- did not finish in 5 minutes of CBMC
+// for strings of up to 6 characters over 3 and was not kept)
